@@ -1884,6 +1884,7 @@ class Stream(AbstractStream):
                         other_index = slice()
             else:
                 other_index = other_chemicals.get_index(IDs)
+                if isinstance(other_index, int): other_index = [other_index]
             if chemicals is other_chemicals:
                 self.mol[other_index] = other_mol[other_index]
             else:
